@@ -40,13 +40,13 @@ theorem xyz_generations (T : Tables) (L : Xyz.Layout) (hL : Xyz.LayoutOK L) (o o
 
 /-! ## SDF -/
 
-/-- SDF: the reloaded object is a fixed point of the normaliser and stays in the (partial) domain. -/
+/-- SDF: the reloaded object is a fixed point of the normaliser and stays in the domain. -/
 theorem sdf_norm_stable (T : Tables) (L : Sdf.Layout) (hL : Sdf.LayoutOK L) (o : Sdf.Obj) (h : Sdf.Dom T L o) :
     Sdf.norm L (Sdf.norm L o) = Sdf.norm L o ∧ Sdf.Dom T L (Sdf.norm L o) :=
   ⟨Sdf.norm_idem L hL o, Sdf.dom_norm T L hL o h⟩
 
-/-- SDF, partial (objects whose fields do not touch, see C02 `sdf_load_dump_partial`): generations 2 and 3 coincide. -/
-theorem sdf_generations_partial (T : Tables) (L : Sdf.Layout) (hL : Sdf.LayoutOK L) (o o₁ : Sdf.Obj) (h : Sdf.Dom T L o)
+/-- SDF: generations 2 and 3 coincide, for every object the columns can hold. -/
+theorem sdf_generations (T : Tables) (L : Sdf.Layout) (hL : Sdf.LayoutOK L) (o o₁ : Sdf.Obj) (h : Sdf.Dom T L o)
     (h₁ : Sdf.load T L (Sdf.dump T L o) = .ok o₁) :
     Sdf.load T L (Sdf.dump T L o₁) = .ok o₁ ∧
     ∀ o₂, Sdf.load T L (Sdf.dump T L o₁) = .ok o₂ → Sdf.dump T L o₂ = Sdf.dump T L o₁ := by
